@@ -560,6 +560,10 @@ class ExprMixin:
           if 'property' in source.decorators(m2.defs[q]):
             return self.call_func(FuncRef(m2, q, bound_self=recv), [], {}, node)
           return FuncRef(m2, q, bound_self=recv)
+      if getattr(getattr(self, 'top_contract', None), 'harness_src', None) and not self.pure_mode:
+        # inside a proof harness the classes of the objects are fixed by the lemma: reading an attribute the class does not
+        # have is what it is in Python -- an AttributeError (an unexpected exception fails the lemma)
+        raise Raise_('AttributeError', '%s object has no attribute %s' % (recv.clsname, attr))
       raise ContractMisfit('object %s has no field %s' % (recv.clsname, attr))
     if isinstance(recv, ModuleRef):
       if recv.module is None:
